@@ -44,7 +44,7 @@ def sol(ub, cons, hkl, wl):
     return [p for p, _ in r[1]]
 
 
-def same(x, y, shift_phi=0.0):
+def same(x, y, shift_phi=0.0, tol=1e-4):
     if isinstance(x, str) or isinstance(y, str):
         return x == y
     if len(x) != len(y):
@@ -56,7 +56,7 @@ def same(x, y, shift_phi=0.0):
             if j in used:
                 continue
             q2 = list(q); q2[5] += shift_phi
-            if max(angdiff(a, b) for a, b in zip(p, q2)) < 1e-4:
+            if max(angdiff(a, b) for a, b in zip(p, q2)) < tol:
                 hit = j; break
         if hit is None:
             return False
@@ -84,9 +84,9 @@ def oracle(ctx, widen=1):
             cases += 1
             if not isinstance(base, str):
                 solved.add(tr)
-            sc = rng.choice([2.5, 0.4, 1.7])
+            sc = rng.choice([2.5, 0.4, 1.7, 1.0004])
             nn = rng.choice([2, 3, 0.5])
-            eps = rng.choice([17.0, -40.0, 123.0])
+            eps = rng.choice([17.0, -40.0, 123.0, 17.0, -40.0, 1e-4, -3e-4, 2e-3])      # incl. the minute re-mounting corrections of an alignment
             nm0 = [k for k in cons if cons[k] is not True]
             rel = {"a": lambda: sol(mk(sc, rot=rot), cons, hkl, wl * sc),
                    "b": lambda: sol(mk(rot=rot), cons, tuple(nn * x for x in hkl), wl / nn)}
@@ -124,6 +124,9 @@ def oracle(ctx, widen=1):
                     ub1 = mk(rot=rot)
                     sol(ub1, cons, hkl, wl)
                     with quiet():
+                        for _k in range(rng.choice([0, 0, 1, 2])):
+                            # the cell is replaced several times in a row before the next request
+                            ub1.set_lattice("y", *rng.choice([(3.3, 4.4, 5.5, 85, 92, 99), (2.0,), ("Hexagonal", 3.0, 5.0), (4.1 * sc * 2, 5.2 * sc * 2, 6.3 * sc * 2, 80, 95, 100)]))
                         if form == "numeric":
                             ub1.set_lattice("x", 4.1 * sc, 5.2 * sc, 6.3 * sc, 80, 95, 100)
                         else:
@@ -134,7 +137,7 @@ def oracle(ctx, widen=1):
             rel["a-inplace-named"] = inplace_scale("named")
             for name, f in rel.items():
                 got = f()
-                ok = same(got, base, eps if name.startswith("d") else 0.0)
+                ok = same(got, base, eps if name.startswith("d") else 0.0, min(1e-4, abs(eps) / 4) if name.startswith("d") else (2e-5 if name.startswith("a") else 1e-4))
                 if not ok:
                     # a request at a numerical singularity is not covered by the quantifier
                     from diffcalc.hkl.calc import HklCalculation
